@@ -63,6 +63,7 @@ KIND_TEXT = {
     "KRelMode": "lock released in the wrong mode", "KRelNotHeld": "release of a lock that is not held", "KRelUndeclared": "release of an undeclared lock",
     "KUnguardedRead": "unguarded read of", "KUnguardedWrite": "unguarded write of", "KImmutableWrite": "write of an immutable field outside a constructor:",
     "KCallback": "callback (or, for wait:..., a blocking wait that is not a mutex operation) runs under a lock it may acquire / depend on:",
+    "KUnauditedConcurrency": "a goroutine start / blocking wait that is not on the audited list (Contracts.audited_concurrency); the lock language cannot judge who signals whom:",
     "KCheckThenAct": "check-then-act: written in one critical section on the strength of a read made in an earlier, released critical section of the same lock (not re-read):",
     "KLockOrder": "acquired (or callee / callback that acquires it reached) while a lock of equal or higher rank is held:", "KCallRequires": "call without the locks the callee requires:",
     "KCallHolding": "call while holding a lock the callee (or a callback / goroutine it reaches) acquires:",
@@ -109,7 +110,7 @@ def _compile_obligation(ctx, d, fname):
     thms = re.findall(r"^(?:Theorem|Corollary)\s+(\w+)", text, re.M)
     rc, out = V.coqc(fname, d, extra=["-R", d, ""])
     complaints = []
-    for blk in re.split(r"(?m)^(?:cta_|wait_)?complaints =", out)[1:]:
+    for blk in re.split(r"(?m)^(?:cta_|wait_|concurrency_)?complaints =", out)[1:]:
         body = blk.split("\n     :", 1)[0]
         complaints += [(a, k, s.replace('""', '"')) for a, k, s in _TRIPLE.findall(re.sub(r"\s+", " ", body))]
     complaints = list(dict.fromkeys(complaints))
@@ -162,6 +163,9 @@ def group_complaints(prop, complaints, info):
         elif kind in PROTOCOL_CALLBACK or kind_class == "callback":
             g = groups.setdefault(("callback",), {"class": "callback-under-lock", "members": [], "tokens": set()})
             g["members"].append((fn, kind, subj))
+        elif kind == "KUnauditedConcurrency":
+            g = groups.setdefault(("unaudited", fn), {"class": "protocol", "members": [], "tokens": set()})
+            g["members"].append((fn, kind, subj))
         else:
             g = groups.setdefault(("other", fn, kind, subj), {"class": "protocol", "members": [], "tokens": set()})
             g["members"].append((fn, kind, subj))
@@ -174,6 +178,10 @@ def group_complaints(prop, complaints, info):
             g["match"] = "locks:callback-under-lock:" + ",".join(sorted(set(f for f, _, _ in g["members"])))
             g["what"] = "a lock is acquired again, or a callee / callback that may take it is reached, while it is held: " + "; ".join(
                 "%s: %s %s" % (f, KIND_TEXT[k], s) for f, k, s in g["members"])
+        elif key[0] == "unaudited":
+            f = g["members"][0][0]
+            g["match"] = "locks:KUnauditedConcurrency:%s:%s" % (f, ",".join(sorted(s2 for _, _, s2 in g["members"])))
+            g["what"] = "new concurrency construct: %s: %s %s" % (f, KIND_TEXT["KUnauditedConcurrency"], ", ".join(sorted(s2 for _, _, s2 in g["members"])))
         else:
             f, k, s = g["members"][0]
             g["match"] = "locks:%s:%s:%s" % (k, f, s)
@@ -270,6 +278,39 @@ def overwrite_atomic_obligation(ctx):
             "output": out[-3000:], "repro": "bin/check replay <this file>"})
         ctx.violations.append({"match": "locks:overwrite-not-atomic", "replay": rp, "no_input": True,
                                "what": "RegisterPipeline no longer overwrites a pipeline with a single sync.Map Store (or a removal is no longer a single Delete): roots operations = %s" % summary})
+    return ok
+
+
+# ---------------------------------------------------------------- C15 side condition (called from the FileSink engine)
+def clock_under_lock_obligation(ctx):
+    """Re-checked structural side condition for C15: on the program regenerated from the tree every reading of the wall clock (time.Now /
+    time.Since / time.Until) in a FileSink method happens while FileSink.l is held -- in open / rotate (their contract requires the lock) or
+    after fs.l.Lock() in Process / Reopen; never before the lock is taken (file stamps would then be out of the order in which the writers got
+    the mutex).  Appends the theorems of coq/obligations/Obl_clock.v to ctx.obligations; on failure appends a violation whose match is
+    "locks:clock-read-outside-lock" (no_input=True).  Returns True when the obligation holds."""
+    part = {}
+    ctx.coverage["parts"]["clock-under-lock-obligation"] = part
+    d = getattr(ctx, "_locks_dir", None)
+    if d is None:
+        d, info = _run_translator(ctx, part)
+        if d is None:
+            rp = V.write_replay(ctx, "translate", {"kind": "obligation", "engine": "locks", "theorem_or_correspondence": "Obl_clock.v", "output": info[-4000:]})
+            ctx.violations.append({"match": "locks:translate", "replay": rp, "what": "the translator / generated file no longer works on the tree", "no_input": True})
+            ctx.obligations.append(("Obl_clock.v:generated", False))
+            return False
+        ctx._locks_dir = d
+    ok, complaints, thms, out = _compile_obligation(ctx, d, "Obl_clock.v")
+    for t in thms:
+        ctx.obligations.append(("Obl_clock.v:" + t, ok))
+    part.update({"obligation_file": "coq/obligations/Obl_clock.v", "theorems": thms, "holds": ok, "complaints": [list(c) for c in complaints]})
+    if not ok:
+        fns = sorted(set(f for f, _, _ in complaints))
+        rp = V.write_replay(ctx, "locks-clock-read-outside-lock", {
+            "kind": "obligation", "engine": "locks", "theorem_or_correspondence": "coq/obligations/Obl_clock.v (filesink_clock_read_under_lock) over the regenerated Gen_Locks.v",
+            "complaints": [{"function": f, "kind": k, "subject": s2, "meaning": KIND_TEXT.get(k, k)} for f, k, s2 in complaints],
+            "generated_terms": gen_terms(d, set(fns)), "output": out[-2000:], "repro": "bin/check replay <this file>"})
+        ctx.violations.append({"match": "locks:clock-read-outside-lock", "replay": rp, "no_input": True,
+                               "what": "a FileSink method reads the wall clock while FileSink.l is not held: " + "; ".join("%s: %s %s" % (f, KIND_TEXT.get(k, k), s2) for f, k, s2 in complaints)})
     return ok
 
 
@@ -488,7 +529,7 @@ def _lockh(ctx, part):
 
 
 def _sc_sig(sc):
-    return "%s/%s/groups=%d/target=%s/parked=%s" % (sc["kind"], sc["op"], sc["groups"], sc["target"], sc["parked"])
+    return "%s/%s/groups=%d/target=%s/parked=%s%s" % (sc["kind"], sc["op"], sc["groups"], sc["target"], sc["parked"], ("/types=%d/pipes=%d" % (sc["types"], sc.get("pipes", 0))) if sc.get("types") else "")
 
 
 def check_C12(ctx):
@@ -509,13 +550,15 @@ def check_C12(ctx):
         eng_broker.hang_part(ctx)
     except Exception as e:
         part["broker_hang_part_error"] = repr(e)
-    timeouts, outside = [], []
+    timeouts, outside, wrong = [], [], []
     if dyn:
         summ, results = dyn
         for r in results:
             if r.get("panic"):
                 rp = V.write_replay(ctx, "panic-%d" % r["scenario"]["id"], {"kind": "correspondence", "engine": "lockh", "case": r["scenario"], "observed_value": r})
                 ctx.violations.append({"match": "panic:" + _sc_sig(r["scenario"]), "replay": rp, "what": "panic in scenario " + _sc_sig(r["scenario"])})
+            if r.get("wrong_result"):
+                wrong.append(r)
             if r["timed_out"]:
                 (timeouts if r["scenario"]["in_statement"] else outside).append(r)
         part["timeouts_outside_statement(observed only)"] = [_sc_sig(r["scenario"]) for r in outside][:5]
@@ -523,6 +566,12 @@ def check_C12(ctx):
         ctx.coverage["distinct_nontrivial"] += summ["distinct_nontrivial"]
         ctx.coverage["rule"] = part["rule"]
         ctx.coverage["samples"] += [r["scenario"] for r in results[:2]]
+    if wrong:
+        wrong.sort(key=lambda r: (r["scenario"]["groups"], r["scenario"].get("types", 0), r["scenario"].get("pipes", 0)))
+        r = wrong[0]
+        rp = V.write_replay(ctx, "lockh-wrong-result", {"kind": "correspondence", "engine": "lockh", "case": r["scenario"], "observed_value": r["wrong_result"],
+                                                         "steps": r["steps"], "scenarios_affected": len(wrong), "repro": "bin/check replay <this file>"})
+        ctx.violations.append({"match": "lockh:wrong-result", "replay": rp, "what": "a Broker call returned the wrong error-ness with failing nodes: " + r["wrong_result"]})
     # the minimal failing scenario: fewest groups, not parked, fewest steps
     timeouts.sort(key=lambda r: (r["scenario"]["groups"], r["scenario"]["parked"], len(r["steps"]), r["scenario"]["id"]))
 
@@ -724,7 +773,7 @@ def _conch_cases(ctx, part):
     d = os.path.join(ctx.work, "conch-out")
     os.makedirs(d, exist_ok=True)
     args = [binp, "-out", d, "-cases", "300" if ctx.tier == "quick" else "12000", "-ops", "12" if ctx.tier == "quick" else "14",
-            "-sends", "8" if ctx.tier == "quick" else "12", "-fresh", "1500" if ctx.tier == "quick" else "20000"]
+            "-sends", "8" if ctx.tier == "quick" else "12", "-fresh", "1500" if ctx.tier == "quick" else "20000", "-rebind", "150" if ctx.tier == "quick" else "3000"]
     corpus = os.path.join(V.VERIF, "corpus", "C04", "conch.jsonl")
     if os.path.exists(corpus):
         args += ["-corpus", corpus]
